@@ -103,6 +103,7 @@ func C16Read(r *eng.Run) {
 	seg := DrawSeg(r)
 	withData := r.T.Chance(sim.LFault, 1, 4)
 	zeroReads, netErr := r.T.Chance(sim.LFault, 1, 8), r.T.Chance(sim.LFault, 1, 3)
+	resume := r.T.Chance(sim.LFault, 1, 4) // error cuts fire once, then the stream goes on
 	cfg.ZeroBuf = (cfg.App == AppReader || cfg.App == AppNextReader) && r.T.Chance(sim.LFault, 1, 8)
 	model := Model(s, cfg)
 	r.Note("C16 read %s side=%d seg=%d endWithData=%v stream(%d bytes): %s", cfg.Name(), cfg.Side, seg, withData, len(s.Wire), s.Describe())
@@ -118,6 +119,12 @@ func C16Read(r *eng.Run) {
 			p.SegMode = seg
 			p.EOFWithData, p.ZeroReads, p.NetErr = withData, zeroReads, netErr
 			p.CutAt, p.CutKind = k, kind
+			// (An error handed over together with bytes that complete an
+			// io.ReadFull - a header hop, the last payload bytes of ReadFrame -
+			// is dropped by io.ReadFull itself, as everywhere in Go; with data
+			// the resuming error is therefore only placed strictly inside a
+			// payload.)
+			p.CutResume = resume && kind == CutErr && (!withData || strictlyInsidePayload(s, k))
 			o := RunApp(r, p, cfg)
 			checkCut(r, cfg, s, model, p, o, k, kind)
 		}
@@ -245,4 +252,15 @@ func checkCut(r *eng.Run, cfg ReadCfg, s *Stream, model []Exp, p *Pipe, o *Outco
 	if cfg.App == AppReader && cfg.OnCont {
 		CheckConts(r, cfg, o, s, k)
 	}
+}
+
+// strictlyInsidePayload reports whether wire offset k lies inside the payload
+// of a frame, at neither end of it.
+func strictlyInsidePayload(s *Stream, k int) bool {
+	for _, f := range s.Frames {
+		if k > f.HdrEnd && k < f.End {
+			return true
+		}
+	}
+	return false
 }
